@@ -41,8 +41,12 @@ def allocation_dtypes(ctx) -> dict[str, set[str]]:
                 ks = set()
                 for t in pts.tensors(pts.expr(fi.qual, c)):
                     ks |= kinds.get(t, set())
+                # a dtype handed in as a parameter is whatever the callers pass for it
+                texts = {_norm(d)}
+                if isinstance(d, ast.Name) and d.id in fi.params:
+                    texts = A.argument_sources(repo, fi, d.id) or texts
                 for k in ks:
-                    out.setdefault(k, set()).add(_norm(d))
+                    out.setdefault(k, set()).update(texts)
     return out
 
 
